@@ -427,6 +427,16 @@ def classify_site(ctx, b, blk, t, name):
         return "hook", "hook without a node (%s); the dispatcher attaches the span" % b.key.rsplit("::", 1)[-1]
     if (common.owner_key(b.key), name) in CENSUS_ALLOW:
         return "allowed", CENSUS_ALLOW[(common.owner_key(b.key), name)]
+    # a private helper called only from functions that have the allowance (code factored out of them)
+    if b.kind in ("Fn", "AssocFn") and str(b.raw.get("vis", "")).startswith("Restricted"):
+        callers = set()
+        for c in ctx.all_bodies(b.crate):
+            if c.key != b.key and not scan.is_test_body(c):
+                for _, t2 in c.calls():
+                    if mir.callee_of(t2) == b.key:
+                        callers.add(common.owner_key(c.key))
+        if callers and all((c, name) in CENSUS_ALLOW for c in callers):
+            return "allowed", "helper of " + ", ".join(sorted(x.split(" as ")[0][-40:] for x in callers)) + ": " + MAP_WHY
     return "violation", "a syntax node (%s) is in scope and the error is built without with_span" % node
 
 
